@@ -186,9 +186,11 @@ def cellItem (it : Item) (c : MCell) : Outcome String × MCell :=
     | (.panic p, c') => (.panic p, c')
   | .resetCounters => (.ok "ok", c.resetCounters)
   | .copyRemaining => match c.copyRemaining with
-    | .ok c2 => (.ok ("ok:" ++ showBs c2.bits ++ s!"/{c2.refs.length}/{c2.refsAvailableForRead}"), c)
-    | .err e => (.err e, c)
-    | .panic p => (.panic p, c)
+    | (.ok c2, c') =>
+      let rs := c2.refs.map fun r => "/" ++ showBs r.bits ++ s!":{r.bits.bitsAvailableForRead}"
+      (.ok ("ok:" ++ showBs c2.bits ++ s!"/{c2.bits.bitsAvailableForRead}/{c2.refs.length}/{c2.refsAvailableForRead}" ++ String.join rs), c')
+    | (.err e, c') => (.err e, c')
+    | (.panic p, c') => (.panic p, c')
   | it => match runItem it c.bits with
     | (r, b) => (r, MCell.mk b c.refs c.refCursor)
 
